@@ -449,7 +449,17 @@ def guard_var_write(ctx, prog):
 
 guard_var_write.rule_id = "C06.GUARD-var-write"
 
-RULES = [data_order, data_gate, pdom_never, dtab_kinds, dtab_mapref, preserve_cutoff, guard_var_write]
+def dtab_staleness(ctx, prog):
+    R = "C06.DTAB-staleness"
+    ctx.rule(R, "is_stale per kind (Var: set_at > recomputed_at; Constant: never computed; map-like/bind: never computed "
+                "|| a child changed since; Expert: also force_stale; invalid: false), edge_is_stale, needs_to_be_computed")
+    from .shared import staleness_tables
+    staleness_tables(ctx, prog, R)
+
+
+dtab_staleness.rule_id = "C06.DTAB-staleness"
+
+RULES = [data_order, data_gate, pdom_never, dtab_kinds, dtab_mapref, preserve_cutoff, guard_var_write, dtab_staleness]
 
 # control signature of the bookkeeping effects this property depends on (rules/ctrlsig.py)
 from .ctrlsig import make_rule as _ctrl_rule  # noqa: E402
